@@ -91,7 +91,7 @@ theorem c07_proof_sound (hinj : HashInj H) (cs : List ByteArray) (i fs : Nat) (d
   · rw [storageProofRoot_eq_chainD _ _ _ _ hg, ← spLoop_eq_chainD] at hacc
     exact c07_proof_sound_loop hinj cs i fs d proof hi hlast hg hacc
   · unfold storageProofRoot at hacc
-    have : proof.length < SP.bitLen (i ^^^ lastLeafIndex fs) := by omega
+    have : proof.length < storageProofSubtreeHeight i fs := by unfold storageProofSubtreeHeight; omega
     simp only [this, if_true] at hacc
     exact absurd hacc.symm hroot
 
@@ -107,26 +107,74 @@ example (d : ByteArray) (proof : List T)
 
 /-! ## the two verdicts of consensus, with the leaf eras of v1 -/
 
-/-- v2 verdict, completeness: for a file whose leaf hashes are `cs.map leaf`, the honest 64-byte leaf
-and the honest path are accepted against the plain root -/
+/-- v2 verdict (`validateV2FileContracts`, with the "too few proof hashes" guard of fix a3a6e71),
+completeness: for a file whose leaf hashes are `cs.map leaf`, the honest 64-byte leaf and the
+honest path are accepted against the plain root -/
 theorem c07_v2_complete [DecidableEq H] (cs : List ByteArray) (i fs : Nat) (leaf64 : ByteArray)
     (hi : i < cs.length) (hlast : lastLeafIndex fs = cs.length - 1) (hleaf : cs[i]? = some (padLeaf leaf64)) :
     verifyV2 i fs leaf64 (spPath (cs.map (leaf : ByteArray → H)) i) (metaRoot (cs.map (leaf : ByteArray → H))) = true := by
   unfold verifyV2
-  have h := (c07_proof_complete (cs.map (leaf : ByteArray → H)) i fs (by simpa using hi) (by simpa using hlast)).1
+  have h := c07_proof_complete (cs.map (leaf : ByteArray → H)) i fs (by simpa using hi) (by simpa using hlast)
   have hg : (cs.map (leaf : ByteArray → H)).getD i zero = leaf (padLeaf leaf64) := by
     simp [List.getD_eq_getElem?_getD, List.getElem?_map, hleaf]
   rw [hg] at h
-  simp [h]
+  have hn : ¬ (fs > 0 ∧ (spPath (cs.map (leaf : ByteArray → H)) i).length < storageProofSubtreeHeight i fs) := by
+    have := h.2.2; unfold storageProofSubtreeHeight; omega
+  simp [hn, h.1]
 
-/-- v2 verdict, soundness -/
-theorem c07_v2_sound [DecidableEq H] (hinj : HashInj H) (cs : List ByteArray) (i fs : Nat) (leaf64 : ByteArray)
-    (proof : List H) (hi : i < cs.length) (hlast : lastLeafIndex fs = cs.length - 1)
-    (hroot : metaRoot (cs.map (leaf : ByteArray → H)) ≠ zero)
+/-- v2 verdict, soundness for a non-empty file — WITHOUT any assumption on the committed root
+(the guard makes `storageProofRoot`'s "too short ⇒ zero hash" sentinel unreachable): acceptance
+means the submitted leaf is leaf `i` of the data whose plain root the contract commits to. In
+particular a contract with `FileMerkleRoot = zero hash` and `Filesize > 0` accepts nothing whose
+data tree does not hash to the zero hash. -/
+theorem c07_proof_sound_v2 [DecidableEq H] (hinj : HashInj H) (cs : List ByteArray) (i fs : Nat) (leaf64 : ByteArray)
+    (proof : List H) (hi : i < cs.length) (hfs : 0 < fs) (hlast : lastLeafIndex fs = cs.length - 1)
     (hacc : verifyV2 i fs leaf64 proof (metaRoot (cs.map (leaf : ByteArray → H))) = true) :
     cs[i]? = some (padLeaf leaf64) := by
   unfold verifyV2 at hacc
-  exact c07_proof_sound hinj cs i fs _ proof hi hlast hroot (by simpa using hacc)
+  by_cases hg : fs > 0 ∧ proof.length < storageProofSubtreeHeight i fs
+  · simp [hg] at hacc
+  · simp only [hg, if_false, decide_eq_true_eq] at hacc
+    have hlen : SP.bitLen (i ^^^ lastLeafIndex fs) ≤ proof.length := by
+      unfold storageProofSubtreeHeight at hg; omega
+    rw [storageProofRoot_eq_chainD _ _ _ _ hlen, ← spLoop_eq_chainD] at hacc
+    exact c07_proof_sound_loop hinj cs i fs _ proof hi hlast hlen hacc
+
+/-- the empty file, exactly: `Filesize = 0` (challenged index 0, `lastLeafIndex` wraps to `2^64-1`, so
+the subtree height is 64): a proof with fewer than 64 hashes is accepted iff the committed root is
+the zero hash — whatever the leaf; a proof with 64 or more hashes is accepted iff folding it
+(64 right siblings, then left siblings) gives the committed root, which is a node hash. -/
+theorem c07_v2_empty_file [DecidableEq H] (leaf64 : ByteArray) (proof : List H) (root : H) :
+    storageProofSubtreeHeight 0 0 = 64 ∧
+    (verifyV2 0 0 leaf64 proof root = true ↔
+      (proof.length < 64 ∧ root = zero) ∨
+      (64 ≤ proof.length ∧ (proof.drop 64).foldl (fun r h => node h r)
+          (proofRoot (leaf (padLeaf leaf64)) 0 (proof.take 64)) = root)) := by
+  have h64 : storageProofSubtreeHeight 0 0 = 64 := by decide +kernel
+  refine ⟨h64, ?_⟩
+  unfold verifyV2 storageProofRoot
+  simp only [h64, Nat.lt_irrefl, false_and, if_false, decide_eq_true_eq]
+  by_cases hl : proof.length < 64
+  · simp only [hl, if_true]
+    constructor
+    · intro h; exact Or.inl ⟨trivial, h.symm⟩
+    · rintro (⟨_, h⟩ | ⟨h, _⟩)
+      · exact h.symm
+      · exact absurd hl (by omega)
+  · simp only [hl, if_false]
+    constructor
+    · intro h; exact Or.inr ⟨by omega, h⟩
+    · rintro (⟨h, _⟩ | ⟨_, h⟩)
+      · exact h.elim
+      · exact h
+
+/-- The gap closed by fix a3a6e71, as a theorem: WITHOUT the guard, a contract of 4096 bytes whose
+committed root is the zero hash accepts an all-zero leaf with an empty proof (the sentinel of
+`storageProofRoot` equals the committed root); with the guard it is rejected. -/
+theorem c07_v2_zero_root_counterexample :
+    verifyV2NoGuard 5 4096 (Bytes.zeros 64) ([] : List T) (zero : T) = true ∧
+    verifyV2 5 4096 (Bytes.zeros 64) ([] : List T) (zero : T) = false := by
+  constructor <;> decide +kernel
 
 /-- v1 verdict, completeness in every era: whatever bytes `lf` the era rule selects from the
 submitted leaf, if zero-extending them gives back leaf `i` of the file the proof is accepted. -/
